@@ -219,7 +219,7 @@ def _sample_regime(S, vectorised, regime, cons):
             batch = run(ctx, lambda b, kk: b.sample(B, key=kk), rb, k)
         calls = [c for c in ctx.calls if c.name.startswith("choice[")]
         tag = ("vec" if vectorised else "single") + ("" if regime == "B<=C" else f"[{regime}]")
-        S.fact(f"{tag}/one-choice-without-replacement", len(calls) == 1 and calls[0].name == "choice[replace=False,p=yes]", function=F_SAMPLE, replay=native_sample_replay,
+        S.fact(f"{tag}/one-choice-without-replacement", len(calls) == 1 and calls[0].name == "choice[replace=False,p=yes]", shape=False, function=F_SAMPLE, replay=native_sample_replay,
                what="sample draws its indices with one jax.random.choice(..., replace=False, p=probs)", detail=[c.name for c in calls])
         if len(calls) != 1:
             return
